@@ -19,6 +19,33 @@ def suffix_match(d, pat):
     return d == pat or d.endswith("." + pat)
 
 
+class _FakeIf:
+    def __init__(self, real, test):
+        self.test = test
+        self.body, self.orelse = getattr(real, "orelse", []), getattr(real, "body", [])
+        for a in ("lineno", "col_offset", "end_lineno", "end_col_offset", "_module", "_parent"):
+            if hasattr(real, a):
+                setattr(self, a, getattr(real, a))
+
+
+class NegTest:
+    """a CFG test node seen through the negation of its condition (T and F edges swapped)"""
+    neg = True
+    kind = "test"
+
+    def __init__(self, real, test):
+        self.real, self.id, self.copy = real, real.id, real.copy
+        self.ast = _FakeIf(real.ast, test)
+
+    @property
+    def lineno(self):
+        return self.real.lineno
+
+
+def _flip(label):
+    return {"T": "F", "F": "T"}.get(label, label)
+
+
 class FuncView:
     def __init__(self, ctx, fn, exc="raise", may_raise=None):
         self.ctx = ctx
@@ -89,7 +116,30 @@ class FuncView:
         return out
 
     def tests(self, pred):
-        return [n for n in self.cfg.nodes if n.kind == "test" and pred(n.ast.test)]
+        """test nodes whose condition satisfies pred.  A test written as the *negation* of such a condition (an early
+        `if not C: return` instead of `if C: ...`) is returned as a NegTest proxy: same CFG node, T/F edges swapped, so
+        `dominated_by_edge(x, t, "T")` keeps meaning "x runs only when C holds"."""
+        from . import normalize
+        out, proxies = [], []
+        for n in self.cfg.nodes:
+            if n.kind != "test":
+                continue
+            t = n.ast.test
+            try:
+                if pred(t):
+                    out.append(n)
+                    continue
+            except Exception:
+                continue
+            try:
+                neg = normalize._BoolNF().visit(normalize._negate(ast.parse(ast.unparse(t), mode="eval").body))
+                if isinstance(neg, ast.UnaryOp) and isinstance(neg.op, ast.Not) and not isinstance(t, ast.UnaryOp):
+                    continue        # only genuine dual spellings (==/!=, in/not in, is/is not, not X / X)
+                if pred(neg):
+                    proxies.append(NegTest(n, neg))
+            except Exception:
+                pass
+        return out + proxies        # direct spellings first: rules that take [0] keep their anchor when both exist
 
     def ptests(self, what):
         """polarity-aware test lookup: `what` is the text of a condition (or a predicate on the condition's AST);
@@ -204,6 +254,8 @@ class FuncView:
         self.ctx.paths += 1
         c = self.cfg
         tid = test_node.id
+        if getattr(test_node, "neg", False):
+            label = _flip(label)
         tids = set(self.ids(targets))
         if not tids or not tids <= self._reachable_all():
             return False    # an unreachable node is not "guarded" by anything (no vacuous truth)
